@@ -156,6 +156,9 @@ func (s *Sim) Nontrivial()           { s.Stats.Nontrivial = true }
 func (s *Sim) Failed() bool          { return len(s.Viol) > 0 || s.EnginePanic != "" || s.HarnessErr != "" }
 func (s *Sim) State(abstract string) { s.states[abstract] = true }
 
+// MixSig folds scenario-level choices into the run signature.
+func (s *Sim) MixSig(parts ...string) { s.mixSig(parts...) }
+
 func (s *Sim) mixSig(parts ...string) {
 	for _, p := range parts {
 		for i := 0; i < len(p); i++ {
